@@ -368,6 +368,48 @@ def opCHUNK (args obs : List String) : Option DecOut :=
              branch := s!"chunk.{cls}.{if wf then "wf" else "other"}.{(go.splitOn " ").headD "?"}" }
   | _ => none
 
+/-- `RAWE raw follow => same | diff len firstdiff | err`: `RawMessage.EncodeMsg` through a stream writer, then a second
+message through the same writer.  Specification: the stream is the raw bytes verbatim (nil for an empty raw message)
+followed by the second message. -/
+def opRAWE (args obs : List String) : Option DecOut :=
+  match args with
+  | [rhx, fhx] =>
+    match parseHex rhx, parseHex fhx with
+    | some rb, some _ =>
+      let go := " ".intercalate obs
+      let fails := if go == "same" then [] else
+        [s!"C13 a raw message of {rb.length} bytes does not reach the stream whole and verbatim ({go}): the decoder of the concatenation runs into the message that follows",
+         s!"C02 RawMessage bytes not verbatim through EncodeMsg ({rb.length} bytes: {go})",
+         s!"C01 a re-encoded raw message does not decode to the message it holds ({rb.length} bytes: {go})",
+         s!"C09 RawMessage.EncodeMsg returned nil although not every byte of the message was written ({rb.length} bytes: {go})"]
+      some { corr := if go == "same" then none else some s!"model=[same] go=[{go}]", fails := fails,
+             branch := s!"rawe.{if rb.length ≤ 2048 then "fits" else "beyond"}.{(go.splitOn " ").headD "?"}" }
+    | _, _ => none
+  | _ => none
+
+/-- `CHUNKC hex… => outs…`: `GetChunk` / `RawMessage.Chunk` on several messages at the same time, one goroutine pair per
+message; per message the distinct outcomes seen (`|`-separated).  Every one of them is judged like a `CHUNK` line. -/
+def opCHUNKC (args obs : List String) : Option DecOut :=
+  if args.length != obs.length || args.isEmpty then none else
+  let rows : List ((String × String) × Nat) := (args.zip obs).zipIdx
+  -- per message and per outcome seen: the verdict of a `CHUNK` line with that outcome
+  let judged : List (Nat × String × Option DecOut) := rows.flatMap fun (row : (String × String) × Nat) =>
+    (row.1.2.splitOn "|").map fun (out : String) =>
+      (row.2, out, opCHUNK ["c", row.1.1] ((out.replace "_" " ").splitOn " "))
+  if judged.any (fun (j : Nat × String × Option DecOut) => j.2.2.isNone) then none else
+  let corr : Option String := judged.foldl (fun (acc : Option String) (j : Nat × String × Option DecOut) =>
+      match acc, j.2.2 with
+      | some w, _ => some w
+      | none, some d => d.corr.map (fun w => s!"message {j.1} under concurrent lookups: {w} (seen {j.2.1})")
+      | none, none => none) none
+  let fails : List String := judged.foldl (fun (acc : List String) (j : Nat × String × Option DecOut) =>
+      match j.2.2 with
+      | some d => acc ++ (d.fails.map fun f => s!"{f} (message {j.1} of {args.length} looked up concurrently)")
+      | none => acc) []
+  let multi := obs.any fun (o : String) => (o.splitOn "|").length > 1
+  let fMulti := if multi then ["C11 the same message got different answers from GetChunk while other goroutines were looking up other messages"] else []
+  some { corr := corr, fails := (fails ++ fMulti).eraseDups, branch := s!"chunkc.{args.length}.{if multi then "unstable" else "stable"}" }
+
 end FV.Driver
 
 namespace FV.Driver
@@ -583,7 +625,13 @@ def opCIDS (args obs : List String) : Option DecOut := do
           (if !preset.isEmpty && id != preset then [s!"C12 {k}: caller-supplied id not preserved"] else []) ++
           (if shapeOk then [] else [s!"C12 {k}: generated id is not base64 of a version-4 UUID"]) ++
           (if preset.isEmpty && gen.contains id then [s!"C12 {k}: generated id coincides with the id of another message"] else []) ++
-          (if finId == idh then [] else [s!"C12 {k}: id changed after it was assigned ({idh} -> {finId})"])
+          (if finId == idh then [] else [s!"C12 {k}: id changed after it was assigned ({idh} -> {finId})"]) ++
+          -- asking for the id adds the chunk option and nothing else: size / compressed stay what the constructor set
+          (if mid == id && renderOptions mo != after then
+            [s!"C03 {k}: asking the message for its chunk id changed its other options ({before} -> {after}, expected {renderOptions mo}): size / compressed no longer describe the event stream",
+             s!"C01 {k}: after Chunk() the message no longer carries the options it was built with ({before} -> {after}): what a receiver decodes is not what the caller built",
+             s!"C02 {k}: after Chunk() the option map is {after}, not the constructor's options plus the chunk ({renderOptions mo})",
+             s!"C12 {k}: assigning the id rewrote the option map ({before} -> {after})"] else [])
         (corr ++ c1 ++ c2, fails ++ f, if preset.isEmpty then id :: gen else gen)
     | _, _ => (corr ++ [s!"bad row {spec} {o}"], fails, gen)
   let (corr, fails, _) := rows.foldl step ([], [], [])
